@@ -70,21 +70,43 @@ def gen_file(rng, i):
     if rng.random() < 0.12:
         # a LAST column whose text can end in a backslash (tdda's CSV reader treats that as an escape at first, then retries)
         cols.append({'name': 'tail', 'kind': 'str_obj', 'nulls': 'none', 'values': [rng.choice(['x\\', 'plain', 'a b\\', 'q', '\\']) for _ in range(n)]})
-    return {'cols': cols, 'nrows': n, 'fmt': ['csv', 'parquet'][i % 2], 'choices': rng.randrange(10 ** 9)}
+    return {'cols': cols, 'nrows': n, 'fmt': ['csv', 'parquet'][i % 2], 'choices': rng.randrange(10 ** 9),
+            'parquet_index': rng.choice([None, None, 'named', 'offset'])}
 
 
 def write_file(spec, path):
     df = F.build_frame(spec)
+    if spec['fmt'] == 'parquet' and spec.get('parquet_index'):
+        # a parquet file stores the frame's index: a named one, or labels that are not 0..n-1
+        if spec['parquet_index'] == 'named':
+            df.index = pd_index_named(len(df))
+        else:
+            df.index = list(range(100, 100 + len(df)))
     if spec['fmt'] == 'parquet':
         df.to_parquet(path)
     else:
         df.to_csv(path, index=False)
 
 
+def pd_index_named(n):
+    import pandas as pd
+    return pd.Index(['r%02d' % k for k in range(n)], name='rowid')
+
+
 def strip_meta(text):
     d = json.loads(text)
     d.pop('creation_metadata', None)
     return json.dumps(d, sort_keys=True, ensure_ascii=True)
+
+
+def lib_load(path):
+    """The frame the library side works on: a parquet file as pandas itself reads it (index and all), a CSV file through
+    tdda's own reader (there is no other reading of a CSV file that the property could refer to)."""
+    if path.endswith('.parquet'):
+        import pandas as pd
+        return pd.read_parquet(path)
+    from tdda.constraints.pd.constraints import load_df
+    return load_df(path)
 
 
 def lib(fn):
@@ -165,9 +187,9 @@ def run_file(ctx, spec, idx):
         rec.event('cli:stdin_input')
     try:
         if in_stdin:
-            want = lib(lambda: discover_df(load_df(dpath), inc_rex=rex))     # the same bytes, loaded from the file
+            want = lib(lambda: discover_df(lib_load(dpath), inc_rex=rex))     # the same bytes, loaded from the file
         else:
-            want = lib(lambda: discover_df(load_df(dpath), inc_rex=rex, df_path=dpath))
+            want = lib(lambda: discover_df(lib_load(dpath), inc_rex=rex, df_path=dpath))
         want_text = want.to_json() if want is not None else None
     except Exception as e:
         want_text = 'LIBRARY-RAISES:' + type(e).__name__
@@ -228,7 +250,7 @@ def run_file(ctx, spec, idx):
         try:
             buf = io.StringIO()
             with contextlib.redirect_stdout(buf), contextlib.redirect_stderr(io.StringIO()):
-                v = verify_df(load_df(dpath), os.path.join(d, stem + '.tdda'), report='all')
+                v = verify_df(lib_load(dpath), os.path.join(d, stem + '.tdda'), report='all')
             want_out = buf.getvalue() + str(v) + '\n'
             if res.status != 0:
                 rec.violation('cli_failed', {'case': case, 'mech': {'cmd': 'verify-implicit', 'status': res.status, 'dots': stem.count('.')},
@@ -295,7 +317,7 @@ def run_file(ctx, spec, idx):
         try:
             buf = io.StringIO()
             with contextlib.redirect_stdout(buf), contextlib.redirect_stderr(io.StringIO()):
-                v = verify_df(load_df(dpath), os.path.join(d, cfile), **kw)
+                v = verify_df(lib_load(dpath), os.path.join(d, cfile), **kw)
             want_out = buf.getvalue() + str(v) + '\n'     # (the library may itself print repair diagnostics)
         except Exception as e:
             want_out = None
@@ -374,7 +396,7 @@ def run_file(ctx, spec, idx):
         try:
             buf = io.StringIO()
             with contextlib.redirect_stdout(buf), contextlib.redirect_stderr(io.StringIO()), in_dir(d):
-                v = detect_df(load_df(dpath), os.path.join(d, cfile), outpath=libout if ofmt != 'dash' else '-',
+                v = detect_df(lib_load(dpath), os.path.join(d, cfile), outpath=libout if ofmt != 'dash' else '-',
                               rownumber_is_index=False, **kw)
             lib_stdout = buf.getvalue()
             lib_raises = None
@@ -421,7 +443,8 @@ def run_file(ctx, spec, idx):
                     if 'RowNumber' in outdf.columns and det is not None and 'RowNumber' not in [c['name'] for c in spec['cols']]:
                         rec.event('detect:row_numbers_checked')
                         got_rn = [int(x) for x in outdf['RowNumber']]
-                        want_rn = [int(i) + 1 for i in det.index]
+                        positions = {lab: k for k, lab in enumerate(lib_load(dpath).index)}
+                        want_rn = [positions[i] + 1 for i in det.index]
                         if got_rn != want_rn:
                             rec.violation('row_numbers_do_not_refer_to_the_input_rows',
                                           {'case': case, 'mech': dict(mech, write_all=bool(kw.get('write_all'))),
